@@ -147,3 +147,50 @@ Proof.
   exact (TextZero.text_no_panic_any_rows W d v Hal Hd Hc).
 Qed.
 Print Assumptions c09_text_any_rows.
+
+(* Tables that carry property callbacks of the application (Model/RenderCb.v).
+   A table "built through the public API" may have callbacks registered on the
+   table, a wrapper standing for it, its columns, rows and cells, for add time
+   and the three render times, aimed at the owner itself, its cells or its rows,
+   at any point of the build - and the registered values may be of any Go type
+   (function values behind an adapter type, structs holding slices, maps or
+   funcs: types whose values cannot be compared).  For every such history
+   (Spec/CbTrace.v wf_hist: it puts no condition on the callbacks, which are
+   opaque labels, equal or not) any number of render passes completes, and
+   Render() - the pass, then the renderer's body - panics only if the body
+   alone would, is the body's result, and an error still comes with no text. *)
+From Tab Require Model.Callbacks Spec.CbTrace Model.RenderCb Proofs.RenderCbProofs.
+
+Theorem c09_callback_passes_complete : forall (h : list CbTypes.op) k,
+  CbTrace.wf_hist h = true -> exists oc, Callbacks.run h k = Ok oc.
+Proof. exact RenderCbProofs.passes_complete. Qed.
+Print Assumptions c09_callback_passes_complete.
+
+Theorem c09_render_with_callbacks : forall (h : list CbTypes.op) (body : res bytes),
+  CbTrace.wf_hist h = true ->
+  RenderCb.render_cb h body = render_string body
+  /\ (body <> Panic ->
+      RenderCb.render_cb h body <> Panic
+      /\ (forall s, RenderCb.render_cb h body = Ok (s, true) -> s = [])).
+Proof.
+  intros h body W. split.
+  - exact (RenderCbProofs.render_cb_is_body h body W).
+  - exact (RenderCbProofs.render_cb_total h body W).
+Qed.
+Print Assumptions c09_render_with_callbacks.
+
+(* non-vacuity: a header, a row, a separator, a row extended after it joined;
+   the SAME label registered twice in one list (table, render time, cells), two
+   more labels in the list of column 1's cells and one on a cell; two passes *)
+Example c09_callbacks_example :
+  let h := [CbTypes.ORegister CbTypes.OTable CbTypes.TRender CbTypes.GCell 7;
+            CbTypes.ORegister CbTypes.OTable CbTypes.TRender CbTypes.GCell 7;
+            CbTypes.OAddHeaders 2; CbTypes.OAddRowItems 2;
+            CbTypes.ORegister (CbTypes.OColumn 1) CbTypes.TPre CbTypes.GCell 3;
+            CbTypes.ORegister (CbTypes.OColumn 1) CbTypes.TPre CbTypes.GCell 4;
+            CbTypes.OAddSeparator; CbTypes.OAppendNewRow; CbTypes.ORowAdd 3;
+            CbTypes.ORegister (CbTypes.OCell 3 1) CbTypes.TRender CbTypes.GItself 5] in
+  CbTrace.wf_hist h = true
+  /\ (exists oc, Callbacks.run h 2 = Ok oc /\ length (Callbacks.oc_render oc) = 2 * 17)
+  /\ RenderCb.render_cb h Err = Ok ([], true).
+Proof. cbv zeta. split; [vm_compute; reflexivity|]. split; [eexists; split; vm_compute; reflexivity|]. vm_compute. reflexivity. Qed.
